@@ -68,9 +68,11 @@ def _grain_blob(q, grain_bytes, *, compressed, lba, lba_value=0, level=6, noise=
 
 def build_hosted(ents, present, *, capacity, grain, gtes, footer=False, compressed=False, lba=True, file_id=0, desc=None,
                  slot_mult=1, level=6, rgd=False, max_pos=None, name=None, magic=b"KDMV", version=1, zero_gte=True,
-                 tight=False, noise=None):
+                 tight=False, noise=None, data_base_min=0):
     """ents: per real grain ("U"|"Z"|"D", q); present: per real grain table bool.
-    capacity, grain in sectors.  Returns (VirtualFile, info)."""
+    capacity, grain in sectors.  data_base_min: first sector of the grain data area is at least this (sector numbers
+    beyond 2^31; with a footer the tables follow the data, so directory entries are that large as well).
+    Returns (VirtualFile, info)."""
     gbytes = grain * SECTOR
     ngd = -(-capacity // (gtes * grain))
     assert len(present) >= ngd, (len(present), ngd)
@@ -104,10 +106,10 @@ def build_hosted(ents, present, *, capacity, grain, gtes, footer=False, compress
 
     if not footer:
         gd_off, gt0, cur = layout_tables(cur)
-        data_base = -(-cur // slot) * slot
+        data_base = -(-max(cur, data_base_min) // slot) * slot
         end = data_base + (top_sectors if tight_sector else top * slot)
     else:
-        data_base = -(-cur // slot) * slot
+        data_base = -(-max(cur, data_base_min) // slot) * slot
         end_data = data_base + (top_sectors if tight_sector else top * slot)
         gd_off, gt0, end = layout_tables(end_data)
     # grain directory + tables
@@ -151,7 +153,7 @@ def build_hosted(ents, present, *, capacity, grain, gtes, footer=False, compress
     return vf, {"data_base": data_base * SECTOR, "ngd": ngd, "slot": slot * SECTOR, "gd_off": gd_off}
 
 
-def build_cowd(ents, present, *, capacity, grain, file_id=0, name=None, max_pos=None, magic=b"COWD"):
+def build_cowd(ents, present, *, capacity, grain, file_id=0, name=None, max_pos=None, magic=b"COWD", data_base_min=0):
     """ESX COWD sparse: 32-bit header fields, 4096-entry grain tables."""
     gtes = 4096
     ngd = -(-capacity // (gtes * grain))
@@ -161,7 +163,7 @@ def build_cowd(ents, present, *, capacity, grain, file_id=0, name=None, max_pos=
     gt0 = gd_off + gd_sectors
     gt_sectors = gtes * 4 // SECTOR
     cur = gt0 + ngd * gt_sectors
-    data_base = -(-cur // grain) * grain
+    data_base = -(-max(cur, data_base_min) // grain) * grain
     used = [q for t, q in ents if t == "D"]
     top = max((max(used) + 1) if used else 0, max_pos or 0)
     ext = []
